@@ -185,6 +185,29 @@ func c27Scenarios(quick bool) []c27Scenario {
 			}(),
 		},
 		{
+			// five early datagrams of two classes interleaved, then the two endpoints one after the other: what the
+			// first creation leaves in the queue has to keep its arrival order for the second
+			name:    "S5-mixed-queue-endpoints-in-sequence",
+			boundLo: 1,
+			body: func(o *c27Obs) {
+				mk(o, []c27Pkt{
+					{"r1", c27Rtp(1), ""}, {"c1", c27Rtcp(1), ""}, {"r2", c27Rtp(2), ""}, {"c2", c27Rtcp(2), ""}, {"c3", c27Rtcp(3), ""},
+					{"r3", c27Rtp(3), "both-created"}, {"c4", c27Rtcp(4), "both-created"},
+				})
+				vsched.GoNamed("app", func() {
+					vsched.Wait("app-wait-early", func() bool { return len(o.conn.arrived) >= 5 })
+					o.eps["srtp"] = o.mux.NewEndpoint(MatchSRTP)
+					o.eps["srtcp"] = o.mux.NewEndpoint(MatchSRTCP)
+					o.conn.events["both-created"] = true
+					o.conn.events["finish"] = true
+				})
+			},
+			expect: map[string][][]byte{
+				"srtp":  {c27Rtp(1), c27Rtp(2), c27Rtp(3)},
+				"srtcp": {c27Rtcp(1), c27Rtcp(2), c27Rtcp(3), c27Rtcp(4)},
+			},
+		},
+		{
 			name: "S4-endpoint-then-close",
 			body: func(o *c27Obs) {
 				mk(o, []c27Pkt{{"p1", c27Dtls(1), ""}, {"p2", c27Dtls(2), "dtls-created"}})
